@@ -4,12 +4,12 @@
 # property's check. Exit 0 = held, 1 = VIOLATION, 2 = harness error (build failure, determinism, watchdog).
 cd "$(dirname "$0")/.." || exit 2
 export CARGO_NET_OFFLINE=true
-mkdir -p target
+T=${VERIF_TARGET:-target}
+mkdir -p $T
 python3 tools/gen_shadow.py || exit 2
-if ! cargo build --release --offline -p noirsim > target/build.log 2>&1; then
-    mkdir -p target
-    tail -40 target/build.log
+if ! cargo build --release --offline -p noirsim --target-dir $T > $T/build.log 2>&1; then
+    tail -40 $T/build.log
     echo "HARNESS-ERROR build of /repo with hooks failed"
     exit 2
 fi
-exec ./target/release/noirsim check "$1" --tier "${2:-quick}"
+exec ./$T/release/noirsim check "$1" --tier "${2:-quick}"
